@@ -38,6 +38,9 @@ Proof.
   - destruct (saved s) as [|b r] eqn:E; cbn [length] in Hok; [discriminate|].
     cbn [fst saved flag length]. split; [|exact Hok]. intros d Hd.
     specialize (H (S d)). rewrite E in H. cbn [length nth_error] in H. cbn [nth_error]. apply H. lia.
+  - destruct (saved s) as [|b r] eqn:E; cbn [length] in Hok; [discriminate|].
+    cbn [fst saved flag length]. split; [|exact Hok]. intros d Hd.
+    specialize (H (S d)). rewrite E in H. cbn [length nth_error] in H. cbn [nth_error]. apply H. lia.
   - cbn [fst]. split; [exact H|exact Hok].
 Qed.
 
@@ -122,6 +125,9 @@ Proof.
     - cbn [step]. destruct (saved s) as [|b r] eqn:E; cbn [length] in H; [discriminate|].
       specialize (IH (mkstate (cbs s) b r)). cbn [saved] in IH. specialize (IH H).
       cbn [fst length]. lia.
+    - cbn [step]. destruct (saved s) as [|b r] eqn:E; cbn [length] in H; [discriminate|].
+      specialize (IH (mkstate (cbs s) b r)). cbn [saved] in IH. specialize (IH H).
+      cbn [fst length]. lia.
     - apply (IH (fst (step beh s (Emit ev snd a single)))), H. }
   destruct (G p init Hok) as [G1 G2]. cbn [init saved length] in G1, G2. lia.
 Qed.
@@ -133,6 +139,7 @@ Proof.
   induction p as [|o p IH]; intros d H; [reflexivity|].
   destruct o; cbn [silent_ok_from brackets_ok_from] in *; try (apply IH, H).
   - apply andb_true_iff in H. apply IH, H.
+  - destruct d; [discriminate|apply IH, H].
   - destruct d; [discriminate|apply IH, H].
 Qed.
 
@@ -177,11 +184,11 @@ Qed.
 Lemma scan_skip_balanced (b : list op) : balanced b ->
   forall d r, flag_scan (S d) (rev b ++ r) = flag_scan (S d) r.
 Proof.
-  induction 1 as [|o b Hen Hex Hb IH|b1 b2 H1 IH1 H2 IH2]; intros d r; [reflexivity| |].
+  induction 1 as [|o b Hen Hex Hb IH|b1 x b2 Hx H1 IH1 H2 IH2]; intros d r; [reflexivity| |].
   - cbn [rev]. rewrite <- app_assoc. cbn [app]. rewrite IH.
     destruct o; cbn [flag_scan]; try reflexivity; discriminate.
   - cbn [rev]. rewrite rev_app_distr. cbn [rev]. rewrite <- !app_assoc. cbn [app].
-    rewrite IH2. cbn [flag_scan]. rewrite IH1. reflexivity.
+    rewrite IH2. destruct x; try discriminate Hx; cbn [flag_scan]; rewrite IH1; reflexivity.
 Qed.
 
 Theorem silenced_all_equations :
@@ -189,14 +196,16 @@ Theorem silenced_all_equations :
   (forall (p : list op) b, silenced_all (p ++ [SetSilent b]) = b) /\
   (forall p : list op, silenced_all (p ++ [SilentEnter]) = true) /\
   (forall (p : list op) o, is_flag_op o = false -> silenced_all (p ++ [o]) = silenced_all p) /\
-  (forall (p b : list op), balanced b -> silenced_all (p ++ SilentEnter :: b ++ [SilentExit]) = silenced_all p).
+  (forall (p b : list op) x, balanced b -> is_exit x = true ->
+     silenced_all (p ++ SilentEnter :: b ++ [x]) = silenced_all p).
 Proof.
   unfold silenced_all. split; [reflexivity|]. split; [|split; [|split]].
   - intros p b. rewrite rev_unit. reflexivity.
   - intros p. rewrite rev_unit. reflexivity.
   - intros p o Ho. rewrite rev_unit. destruct o; try discriminate; reflexivity.
-  - intros p b Hb. rewrite rev_app_distr. cbn [rev]. rewrite rev_app_distr. cbn [rev app].
-    rewrite <- app_assoc. cbn [app flag_scan]. rewrite (scan_skip_balanced b Hb). reflexivity.
+  - intros p b x Hb Hx. rewrite rev_app_distr. cbn [rev]. rewrite rev_app_distr. cbn [rev app].
+    rewrite <- app_assoc. destruct x; try discriminate Hx; cbn [app flag_scan];
+      rewrite (scan_skip_balanced b Hb); reflexivity.
 Qed.
 
 (* ---------- the equations determine the predicate on well-bracketed histories ---------- *)
@@ -204,7 +213,7 @@ Fixpoint depth_from (d : nat) (p : list op) : nat :=
   match p with
   | [] => d
   | SilentEnter :: r => depth_from (S d) r
-  | SilentExit :: r => depth_from (pred d) r
+  | SilentExit :: r | SilentExitExc :: r => depth_from (pred d) r
   | _ :: r => depth_from d r
   end.
 
@@ -214,13 +223,17 @@ Lemma brackets_snoc (p : list op) : forall d o,
 Proof.
   induction p as [|x p IH]; intros d o.
   - cbn [app brackets_ok_from depth_from]. destruct o; cbn [is_exit negb orb andb]; try reflexivity; destruct d; reflexivity.
-  - rewrite <- app_comm_cons. destruct x; cbn [brackets_ok_from depth_from]; try apply IH.
-    destruct d; [reflexivity|apply IH].
+  - rewrite <- app_comm_cons. destruct x; cbn [brackets_ok_from depth_from]; try apply IH;
+      (destruct d; [reflexivity|apply IH]).
 Qed.
 
 Lemma depth_snoc (p : list op) : forall d o,
   depth_from d (p ++ [o]) =
-  match o with SilentEnter => S (depth_from d p) | SilentExit => pred (depth_from d p) | _ => depth_from d p end.
+  match o with
+  | SilentEnter => S (depth_from d p)
+  | SilentExit | SilentExitExc => pred (depth_from d p)
+  | _ => depth_from d p
+  end.
 Proof.
   induction p as [|x p IH]; intros d o.
   - destruct o; reflexivity.
@@ -251,31 +264,36 @@ Proof.
   { intros Hen Hex Hd'. destruct (IH q k ltac:(lia) Hq Hd') as (p' & b & -> & Hb & Hp & Hk).
     exists p', (b ++ [x]). split; [rewrite <- app_assoc; reflexivity|]. split; [|split; assumption].
     apply balanced_app; [exact Hb|]. apply bal_other; [exact Hen|exact Hex|constructor]. }
-  destruct x; try (apply Other; [reflexivity|reflexivity|exact Hd]).
-  - (* enter *) injection Hd as Hd. exists q, []. split; [reflexivity|]. split; [constructor|]. split; assumption.
-  - (* exit *) destruct (depth_from 0 q) as [|m] eqn:En; [discriminate|]. cbn [pred] in Hd. subst m.
+  destruct (is_exit x) eqn:Ex.
+  - (* a leave, normal or by an exception *)
+    assert (Hd' : pred (depth_from 0 q) = S k) by (destruct x; try discriminate Ex; exact Hd).
+    destruct (depth_from 0 q) as [|m] eqn:En; [discriminate|]. cbn [pred] in Hd'. subst m.
     destruct (IH q (S k) ltac:(lia) Hq En) as (p1 & b1 & -> & Hb1 & Hp1 & Hk1).
     rewrite app_length in Hn. cbn [length] in Hn.
     destruct (IH p1 k ltac:(lia) Hp1 Hk1) as (p' & b0 & -> & Hb0 & Hp & Hk).
-    exists p', (b0 ++ SilentEnter :: b1 ++ [SilentExit]).
+    exists p', (b0 ++ SilentEnter :: b1 ++ [x]).
     split; [rewrite <- !app_assoc; reflexivity|].
     split; [|split; assumption].
-    apply balanced_app; [exact Hb0|]. apply (bal_block Arg b1 []); [exact Hb1|constructor].
+    apply balanced_app; [exact Hb0|]. apply (bal_block Arg b1 x []); [exact Ex|exact Hb1|constructor].
+  - destruct (is_enter x) eqn:En'.
+    + (* enter *) destruct x; try discriminate En'. injection Hd as Hd.
+      exists q, []. split; [reflexivity|]. split; [constructor|]. split; assumption.
+    + apply Other; [reflexivity|reflexivity|]. destruct x; try discriminate; exact Hd.
 Qed.
 
 (* a non-empty well-bracketed history ends with a non-`leave` operation or with a whole closed block *)
 Lemma last_split (p : list op) :
   brackets_ok p = true -> p <> [] ->
   (exists p' o, p = p' ++ [o] /\ is_exit o = false /\ brackets_ok p' = true) \/
-  (exists p' b, p = p' ++ SilentEnter :: b ++ [SilentExit] /\ balanced b /\ brackets_ok p' = true).
+  (exists p' b x, p = p' ++ SilentEnter :: b ++ [x] /\ is_exit x = true /\ balanced b /\ brackets_ok p' = true).
 Proof.
   intros Hok Hne. destruct p as [|x q _] using rev_ind; [congruence|]. clear Hne.
   unfold brackets_ok in *. rewrite brackets_snoc in Hok. apply andb_true_iff in Hok. destruct Hok as [Hq Hx].
   destruct (is_exit x) eqn:Ex.
-  - right. destruct x; try discriminate Ex. cbn [negb orb] in Hx. apply Nat.ltb_lt in Hx.
+  - right. cbn [negb orb] in Hx. apply Nat.ltb_lt in Hx.
     destruct (depth_from 0 q) as [|k] eqn:Ed; [lia|].
     destruct (open_split_n (length q) q k (le_n _) Hq Ed) as (p' & b & -> & Hb & Hp & _).
-    exists p', b. split; [rewrite <- app_assoc; reflexivity|]. split; assumption.
+    exists p', b, x. split; [rewrite <- app_assoc; reflexivity|]. split; [exact Ex|]. split; assumption.
   - left. exists q, x. split; [reflexivity|]. split; assumption.
 Qed.
 
@@ -285,7 +303,7 @@ Theorem silenced_all_unique (S' : list op -> bool) :
   (forall p b, S' (p ++ [SetSilent b]) = b) ->
   (forall p, S' (p ++ [SilentEnter]) = true) ->
   (forall p o, is_flag_op o = false -> S' (p ++ [o]) = S' p) ->
-  (forall p b, balanced b -> S' (p ++ SilentEnter :: b ++ [SilentExit]) = S' p) ->
+  (forall p b x, balanced b -> is_exit x = true -> S' (p ++ SilentEnter :: b ++ [x]) = S' p) ->
   forall p, brackets_ok p = true -> S' p = silenced_all p.
 Proof.
   intros E0 E1 E2 E3 E4.
@@ -295,7 +313,7 @@ Proof.
     - destruct p; [rewrite E0, F0; reflexivity|cbn [length] in Hn; lia].
     - destruct p as [|x0 p0] eqn:Ep; [rewrite E0, F0; reflexivity|]. rewrite <- Ep in *.
       assert (Hne : p <> []) by (rewrite Ep; discriminate). clear Ep.
-      destruct (last_split p Hok Hne) as [(p' & o & -> & Ho & Hp)|(p' & b & -> & Hb & Hp)].
+      destruct (last_split p Hok Hne) as [(p' & o & -> & Ho & Hp)|(p' & b & x & -> & Hx & Hb & Hp)].
       + rewrite app_length in Hn. cbn [length] in Hn.
         destruct o; try discriminate Ho.
         * rewrite E3, F3 by reflexivity. apply IH; [lia|exact Hp].
@@ -304,7 +322,7 @@ Proof.
         * rewrite E1, F1. reflexivity.
         * rewrite E2, F2. reflexivity.
         * rewrite E3, F3 by reflexivity. apply IH; [lia|exact Hp].
-      + rewrite E4, F4 by exact Hb. apply IH; [|exact Hp].
+      + rewrite E4, F4 by assumption. apply IH; [|exact Hp].
         rewrite app_length in Hn. cbn [length] in Hn. lia. }
   intros p. apply (G (length p)). lia.
 Qed.
@@ -316,12 +334,13 @@ Lemma saved_step s (o : op) :
   length (saved (fst (step beh s o))) =
   match o with
   | SilentEnter => S (length (saved s))
-  | SilentExit => pred (length (saved s))
+  | SilentExit | SilentExitExc => pred (length (saved s))
   | _ => length (saved s)
   end.
 Proof.
   destruct o; cbn [step]; try reflexivity.
   - destruct (entry_of f st sf last); reflexivity.
+  - destruct (saved s) as [|b r] eqn:E; cbn [fst saved length pred]; [rewrite E|]; reflexivity.
   - destruct (saved s) as [|b r] eqn:E; cbn [fst saved length pred]; [rewrite E|]; reflexivity.
 Qed.
 
@@ -331,8 +350,9 @@ Theorem bad_iff_brackets (h : list op) : forall s,
 Proof.
   induction h as [|o h IH]; intros s; [reflexivity|].
   cbn [outs existsb]. rewrite IH, saved_step.
-  destruct o as [f st sf last|items| |b| | |ev sd a single]; cbn [brackets_ok_from step snd is_bad orb]; try reflexivity.
+  destruct o as [f st sf last|items| |b| | | |ev sd a single]; cbn [brackets_ok_from step snd is_bad orb]; try reflexivity.
   - destruct (entry_of f st sf last); reflexivity.
+  - destruct (saved s) as [|b r]; reflexivity.
   - destruct (saved s) as [|b r]; reflexivity.
   - unfold emit. destruct (Model.flag s); [reflexivity|].
     destruct (truthy single).
